@@ -444,7 +444,345 @@ class CipherKind(Kind):
             yield dict(case, stops=stops[len(stops) // 2:])
 
 
-KINDS = [SweepKind(), PrimKind(), CipherKind()]
+# --------------------------------------------------------------------------------------------- histories: hidden state between calls
+
+def _view(bufs, objs, arg):
+    """The ndarray handed to the code for one argument: a view of the named byte buffer at the given offset under the given dtype
+    and shape; the SAME ndarray object is handed out again when the same (buffer, offset, dtype, shape) is asked for again."""
+    k = (arg['buf'], arg.get('offset', 0), arg['dtype'], tuple(arg['shape']))
+    if k not in objs:
+        off = arg.get('offset', 0)
+        nbytes = int(np.prod(arg['shape'])) * np.dtype(arg['dtype']).itemsize
+        objs[k] = bufs[arg['buf']][off:off + nbytes].view(arg['dtype']).reshape(arg['shape'])
+    return objs[k]
+
+
+def _play(case, fn=None):
+    """Run the history.  With fn=None nothing of scared is called: only the buffers are played and the logical rows of every
+    argument of every call are returned (used by coq()).  With fn, fn(call, arrays) is called for each call."""
+    bufs = {n: np.array(img, dtype='uint8') for n, img in case['buffers'].items()}
+    objs = {}
+    out = []
+    for call in case['calls']:
+        for n, img in (call.get('set') or {}).items():
+            bufs[n][:] = np.array(img, dtype='uint8')      # in place: every ndarray object handed out before sees it
+        arrays = {a: _view(bufs, objs, spec) for a, spec in call['args'].items()}
+        rows = {a: ([[int(v) for v in r] for r in arr.reshape(-1, arr.shape[-1]).tolist()], arr.ndim >= 2) for a, arr in arrays.items()}
+        out.append((rows, fn(call, arrays) if fn else None))
+    return out
+
+
+def _img(vals, dtype='uint8'):
+    """memory image (byte list) of the byte values stored with the given dtype"""
+    return np.array(vals, dtype=dtype).view('uint8').reshape(-1).tolist()
+
+
+def _bytes(rng, n, top=256):
+    return [rng.randrange(top) for _ in range(n)]
+
+
+U8 = 'uint8'
+
+
+def _arg(buf, shape, dtype=U8, offset=0):
+    a = {'buf': buf, 'dtype': dtype, 'shape': list(shape)}
+    if offset:
+        a['offset'] = offset
+    return a
+
+
+def _cc(fn, key, blk, stop=(None, None, None), sets=None, scribble=False):
+    c = {'fn': fn, 'args': {'key': key, 'blk': blk}, 'stop': list(stop)}
+    if sets:
+        c['set'] = sets
+    if scribble:
+        c['scribble'] = True
+    return c
+
+
+class HistoryKind(Kind):
+    name = 'des_history'
+    header = HDR
+    case_type = 'list call'
+    check_fn = 'hist_check'
+    explain_fn = 'hist_explain'
+    shard = 12
+    rule = ('sequences of 2-4 calls of encrypt / decrypt / key_schedule / the primitives in ONE process, the DES modules re-executed '
+            'before each history, every result (values and shape) compared with the spec: (a) consecutive calls whose key or block arrays '
+            'share a memory image under another shape / dtype / key form (24 bytes as one TDES3 key, as 8 + 16, as three DES keys; 16 as '
+            'TDES2 or two DES keys; 128 / 256 / 384 round-key words as an expanded key, as 16 / 32 / 48 eight-byte master keys or as TDES '
+            'master keys; expanded key_schedule(k) vs the master key k; uint16 / int64 arrays vs the uint8 arrays with the same bytes); '
+            '(b) the SAME ndarray object mutated in place between two calls (key, block, 1-D and 2-D); (c) one key with other blocks / '
+            'shapes / modes / stop points incl. those before the first key addition; (d) alternating encrypt / decrypt; (e) the returned '
+            'array scribbled over by the caller, then the call repeated; oracles: no exception, arguments unmodified, uint8 results, an '
+            'earlier result is not changed by a later call; non-trivial = always')
+
+    EARLY = [(0, 0, 0), (0, 0, 1), (0, 0, 2), (None, None, None), (0, 15, 6), (0, 3, 8)]
+
+    def gen(self, rng, tier):
+        reps = 1 if tier == 'quick' else 4
+        one_blk = _arg('B', [8])
+        for rep in range(reps):
+            def stop(form=24):
+                last = n_des(form) - 1
+                return rng.choice(self.EARLY + [(last, 15, 9), (last, 0, 0), (last, 7, 3), (None, 2, 7)])
+
+            # (a) one memory image, several readings of it as keys of different forms
+            k24 = _bytes(rng, 24)
+            readings24 = [(_arg('K', [24]), 24), (_arg('K', [8]), 8), (_arg('K', [16], offset=8), 16), (_arg('K', [16]), 16),
+                          (_arg('K', [3, 8]), 8), (_arg('K', [8], offset=16), 8)]
+            for fns in (('encrypt', 'encrypt', 'encrypt'), ('decrypt', 'decrypt', 'decrypt'), ('encrypt', 'decrypt', 'encrypt')):
+                for _ in range(3):
+                    picks = rng.sample(readings24, 3)
+                    calls = []
+                    for (key, form), fn in zip(picks, fns):
+                        many = len(key['shape']) == 2
+                        blk = _arg('P', [key['shape'][0], 8]) if (many and rng.random() < 0.4) else one_blk
+                        calls.append(_cc(fn, key, blk, stop(form)))
+                    yield {'class': 'a', 'buffers': {'K': k24, 'B': _bytes(rng, 8), 'P': _bytes(rng, 24)}, 'calls': calls}
+            # round-key words (all below 64): expanded key vs the same bytes as master keys
+            for xlen in (128, 256, 384):
+                img = _bytes(rng, xlen, 64)
+                nk = xlen // 128
+                views = [(_arg('K', [xlen]), xlen), (_arg('K', [4, 8], offset=8 * rng.randrange(xlen // 8 - 4)), 8),
+                         (_arg('K', [2, 16 if nk < 3 else 24]), 16 if nk < 3 else 24), (_arg('K', [128], offset=128 * (nk - 1)), 128)]
+                if nk > 1:
+                    views.append((_arg('K', [nk, 128]), 128))
+                for fns in (('encrypt', 'encrypt'), ('decrypt', 'encrypt'), ('decrypt', 'decrypt')):
+                    for order in (views[:2], views[:2][::-1], rng.sample(views, 2)):
+                        calls = [_cc(fn, key, one_blk, stop(form)) for (key, form), fn in zip(order, fns)]
+                        yield {'class': 'a', 'buffers': {'K': img, 'B': _bytes(rng, 8)}, 'calls': calls}
+            # expanded key_schedule(k) next to the master key k (the caller flattens what key_schedule returned)
+            for nk in (1, 2, 3):
+                master = _bytes(rng, 8 * nk)
+                for fn in ('encrypt', 'decrypt'):
+                    st = stop(8 * nk)
+                    yield {'class': 'a', 'buffers': {'K': master, 'B': _bytes(rng, 8)}, 'expand': {'X': 'K'}, 'calls': [
+                        _cc(fn, _arg('K', [8 * nk]), one_blk, st), _cc(fn, _arg('X', [128 * nk]), one_blk, st),
+                        {'fn': 'key_schedule', 'args': {'key': _arg('K', [nk, 8])}}, _cc(fn, _arg('K', [8 * nk]), one_blk)]}
+            # wider dtypes: byte values stored as uint16 / int64, then the uint8 arrays with the same memory image (and back)
+            for wide, isz in (('uint16', 2), ('int64', 8)):
+                for klen in (8, 16, 24):
+                    vals = _bytes(rng, klen)
+                    img = _img(vals, wide)
+                    narrow = [sh for sh in ([klen * isz // 8, 8], [klen * isz // 16, 16], [klen * isz // 24, 24])
+                              if sh[0] * sh[1] == klen * isz and 1 <= sh[0] <= 24]
+                    for nshape in rng.sample(narrow, min(2, len(narrow))):
+                        kw, kn = _arg('K', [klen], wide), _arg('K', nshape)
+                        for order in ((kn, kw), (kw, kn)):
+                            fns = rng.choice([('encrypt', 'encrypt'), ('decrypt', 'encrypt'), ('key_schedule', 'encrypt')])
+                            calls = []
+                            for key, fn in zip(order, fns):
+                                if fn == 'key_schedule' and key['shape'][-1] == 8:
+                                    calls.append({'fn': fn, 'args': {'key': key}})
+                                else:
+                                    calls.append(_cc('encrypt' if fn == 'key_schedule' else fn, key, one_blk, stop(key['shape'][-1])))
+                            yield {'class': 'a', 'buffers': {'K': img, 'B': _bytes(rng, 8)}, 'calls': calls}
+            # the block: 8 byte values as uint16 (16 bytes) / int64 (64 bytes), then the uint8 blocks with that image
+            for wide, isz in (('uint16', 2), ('int64', 8)):
+                vals = _bytes(rng, 8)
+                for form in (8, 24, 128):
+                    key = _arg('K', [form])
+                    sw, sn = _arg('S', [8], wide), _arg('S', [isz, 8])
+                    for order in ((sw, sn), (sn, sw)):
+                        fn = rng.choice(['encrypt', 'decrypt'])
+                        yield {'class': 'a', 'buffers': {'K': _bytes(rng, form, 64 if form > 24 else 256), 'S': _img(vals, wide)},
+                               'calls': [_cc(fn, key, b, stop(form)) for b in order]}
+            for name, (_, w, top) in PRIMS.items():
+                if name == 'key_schedule':
+                    continue
+                v = _bytes(rng, w, top)
+                yield {'class': 'a', 'buffers': {'S': _img(v, 'uint16')},
+                       'calls': [{'fn': name, 'args': {'state': _arg('S', [w], 'uint16')}},
+                                 {'fn': name, 'args': {'state': _arg('S', [2, w])}}]}
+            # (b) the SAME ndarray object, mutated in place between the calls
+            for form in FORMS:
+                top = 64 if form > 24 else 256
+                key, keys2, blk2 = _arg('K', [form]), _arg('K2', [2, form]), _arg('P', [2, 8])
+                for fn in ('encrypt', 'decrypt'):
+                    st = stop(form)
+                    bufs = {'K': _bytes(rng, form, top), 'B': _bytes(rng, 8), 'K2': _bytes(rng, 2 * form, top), 'P': _bytes(rng, 16)}
+                    yield {'class': 'b', 'buffers': bufs, 'calls': [
+                        _cc(fn, key, one_blk, st),
+                        _cc(fn, key, one_blk, st, sets={'K': _bytes(rng, form, top)}),          # the key object mutated
+                        _cc(fn, key, one_blk, st, sets={'B': _bytes(rng, 8)})]}                  # the block object mutated
+                    one_byte = list(bufs['K2'])
+                    one_byte[form + 3] ^= 0x20                                                   # one byte of the second key
+                    yield {'class': 'b', 'buffers': bufs, 'calls': [
+                        _cc(fn, keys2, blk2, st), _cc(fn, keys2, blk2, st, sets={'K2': one_byte}),
+                        _cc(fn, keys2, one_blk, st, sets={'P': _bytes(rng, 16)}), _cc(fn, keys2, blk2, st)]}
+            yield {'class': 'b', 'buffers': {'K': _bytes(rng, 16)}, 'calls': [
+                {'fn': 'key_schedule', 'args': {'key': _arg('K', [2, 8])}},
+                {'fn': 'key_schedule', 'args': {'key': _arg('K', [2, 8])}, 'set': {'K': _bytes(rng, 16)}},
+                {'fn': 'key_schedule', 'args': {'key': _arg('K', [8])}}]}
+            for name, (_, w, top) in PRIMS.items():
+                if name == 'key_schedule':
+                    continue
+                st = _arg('S', [2, w])
+                yield {'class': 'b', 'buffers': {'S': _bytes(rng, 2 * w, top)}, 'calls': [
+                    {'fn': name, 'args': {'state': st}},
+                    {'fn': name, 'args': {'state': st}, 'set': {'S': _bytes(rng, 2 * w, top)}},
+                    {'fn': name, 'args': {'state': st}, 'scribble': True},
+                    {'fn': name, 'args': {'state': st}}]}
+            # (c) one key, other blocks / shapes / modes / stop points;  (d) alternating encrypt / decrypt;  (e) result scribbled
+            for form in FORMS:
+                top = 64 if form > 24 else 256
+                last = n_des(form) - 1
+                key, keys3, blk3 = _arg('K', [form]), _arg('K3', [3, form]), _arg('P', [3, 8])
+                bufs = {'K': _bytes(rng, form, top), 'K3': _bytes(rng, 3 * form, top), 'B': _bytes(rng, 8), 'P': _bytes(rng, 24)}
+                yield {'class': 'c', 'buffers': bufs, 'calls': [
+                    _cc('encrypt', keys3, blk3, (0, 0, 0)), _cc('encrypt', keys3, one_blk, (0, 0, 0)),
+                    _cc('encrypt', key, blk3, (0, 0, 1)), _cc('encrypt', keys3, one_blk, (0, 0, 1))]}
+                yield {'class': 'c', 'buffers': bufs, 'calls': [
+                    _cc('decrypt', key, one_blk), _cc('decrypt', keys3, one_blk, (0, 0, 1)),
+                    _cc('decrypt', keys3, one_blk, (last, 0, 0)), _cc('encrypt', key, blk3, (last, 15, 7))]}
+                yield {'class': 'd', 'buffers': bufs, 'calls': [
+                    _cc('encrypt', key, one_blk), _cc('decrypt', key, one_blk), _cc('encrypt', keys3, one_blk, stop(form)),
+                    _cc('decrypt', key, blk3)]}
+                yield {'class': 'd', 'buffers': bufs, 'calls': [
+                    _cc('decrypt', keys3, blk3, (last, 2, 1)), _cc('encrypt', keys3, blk3, (last, 2, 1)), _cc('decrypt', keys3, blk3, (last, 2, 1))]}
+                yield {'class': 'e', 'buffers': bufs, 'calls': [
+                    _cc('encrypt', key, blk3, scribble=True), _cc('encrypt', key, blk3),
+                    _cc('decrypt', keys3, one_blk, (0, 0, 0), scribble=True), _cc('decrypt', keys3, one_blk, (0, 0, 0))]}
+
+    # ---- running
+    @staticmethod
+    def _fresh():
+        """Every history starts from freshly re-executed scared.des modules, so that a history (and its replay, and every shrinking
+        candidate) is self-contained: whatever an earlier case left in module- or class-level state is gone."""
+        import importlib
+        import scared
+        import scared.des.base
+        try:
+            importlib.reload(scared.des.base)
+            importlib.reload(scared.des)
+        except Exception:      # keep going with the modules as they are
+            pass
+        return scared
+
+    @staticmethod
+    def _expanded(case):
+        """buffers derived by the harness itself: X = key_schedule of every 8-byte key of buffer K, flattened (FIPS reference in
+        python would be circular: the values are re-checked in Coq against the spec through the calls that use them)"""
+        case = dict(case)
+        if case.get('expand'):
+            import scared.des.base as B
+            bufs = dict(case['buffers'])
+            for dst, src in case['expand'].items():
+                k = np.array(bufs[src], dtype='uint8').reshape(-1, 8)
+                bufs[dst] = [int(v) for v in B.key_schedule(k).reshape(-1)]
+            case['buffers'] = bufs
+        return case
+
+    def run(self, case):
+        scared = self._fresh()
+        D = scared.des
+        case = self._expanded(case)
+        results = []
+
+        def do(call, arrays):
+            before = {a: arr.copy() for a, arr in arrays.items()}
+            fn = call['fn']
+            try:
+                if fn in ('encrypt', 'decrypt'):
+                    kw = {}
+                    d, r, s = call['stop']
+                    if d is not None:
+                        kw['at_des'] = d
+                    if r is not None:
+                        kw['at_round'] = r
+                    if s is not None:
+                        kw['after_step'] = s
+                    out = getattr(D, fn)(arrays['blk'], arrays['key'], **kw)
+                elif fn == 'key_schedule':
+                    out = D.key_schedule(arrays['key'])
+                else:
+                    out = getattr(D, fn)(arrays['state'])
+            except Exception as e:
+                results.append((None, None, True))
+                return {'raised': type(e).__name__, 'msg': str(e)[:200]}
+            width = 128 if fn == 'key_schedule' else (4 if fn == 'permutation_p' else 8)
+            if not isinstance(out, np.ndarray) or out.dtype != np.uint8 or out.size % width != 0:
+                results.append((None, None, True))
+                return {'raised': 'BadResult', 'msg': f'{type(out).__name__} dtype {getattr(out, "dtype", None)} shape {getattr(out, "shape", None)}'}
+            o = {'shape': [int(v) for v in out.shape],
+                 'rows': [v for x in rows2d(out, width).tolist() for v in (limbs(x) if fn == 'key_schedule' else [pack(x)])],
+                 'args_unchanged': all(arr.shape == before[a].shape and bool((arr == before[a]).all()) for a, arr in arrays.items())}
+            snap = out.copy()
+            scribbled = False
+            if call.get('scribble'):
+                try:
+                    out[...] = out ^ 0x2A          # the caller owns the returned array
+                    scribbled = True
+                except Exception:
+                    o['result_read_only'] = True
+            results.append((out, snap, scribbled))
+            return o
+
+        played = _play(case, do)
+        obs = {'calls': [o for _, o in played]}
+        obs['earlier_results_intact'] = [bool(s or out is None or (out.shape == snap.shape and (out == snap).all())) for out, snap, s in results]
+        return obs
+
+    def coq(self, case, obs):
+        played = _play(self._expanded(case))
+        lits = []
+        for call, (rows, _), o in zip(case['calls'], played, obs.get('calls', [{}] * len(case['calls']))):
+            fn = call['fn']
+            o = o if 'rows' in o else {}
+            if fn in ('encrypt', 'decrypt'):
+                (keys, km), (blks, bm) = rows['key'], rows['blk']
+                # values above 255 cannot be packed: such an argument is never generated (the images hold byte values)
+                lits.append('CallCipher ' + cipher_literal(fn == 'decrypt', len(keys[0]), km, [pack(k) for k in keys], bm,
+                                                           [pack(b) for b in blks], [call['stop']],
+                                                           [o['shape']] if o else [], [o['rows']] if o else []))
+            else:
+                st, _ = rows['key'] if fn == 'key_schedule' else rows['state']
+                lits.append('CallPrim {| pr_prim := %s; pr_in := %s; pr_obs := %s |}' % (
+                    PRIMS[fn][0], C.coq_list([pack(r) for r in st], C.coq_n), C.coq_list(o.get('rows', []), C.coq_n)))
+        return '[' + '; '.join(lits) + ']'
+
+    def oracle(self, case, obs):
+        if 'raised' in obs:
+            return f'history raised {obs["raised"]}: {obs["msg"]}'
+        for i, (call, o) in enumerate(zip(case['calls'], obs['calls'])):
+            if 'raised' in o:
+                return f'call {i} ({call["fn"]}) of the history raised {o["raised"]}: {o["msg"]}'
+            if not o['args_unchanged']:
+                return f'call {i} ({call["fn"]}) modified the caller\'s arrays'
+        for i, ok in enumerate(obs['earlier_results_intact']):
+            if not ok:
+                return f'the array returned by call {i} ({case["calls"][i]["fn"]}) was changed by a later call'
+        return None
+
+    def features(self, case, obs):
+        return {'class': case['class'], 'calls': len(case['calls']), 'fns': '+'.join(sorted({c['fn'] for c in case['calls']}))}
+
+    def tags(self, case, obs):
+        return ['des_history', 'des_history_' + case['class']]
+
+    def sample(self, case, obs):
+        return {'case': case, 'observed': {'calls': [dict(o, rows=o.get('rows', [])[:4]) for o in obs.get('calls', [])]}}
+
+    def shrink(self, case):
+        n = len(case['calls'])
+        if n > 1:
+            for i in range(n):                      # drop one call (its in-place mutation is kept: moved to the next call)
+                calls = [dict(c) for c in case['calls']]
+                dropped = calls.pop(i)
+                if dropped.get('set') and i < len(calls):
+                    merged = dict(dropped['set'])
+                    merged.update(calls[i].get('set') or {})
+                    calls[i]['set'] = merged
+                yield dict(case, calls=calls)
+        for i, c in enumerate(case['calls']):       # simpler stop point
+            if c['fn'] in ('encrypt', 'decrypt') and any(v is not None for v in c['stop']):
+                calls = [dict(x) for x in case['calls']]
+                calls[i]['stop'] = [None, None, None]
+                yield dict(case, calls=calls)
+
+
+KINDS = [SweepKind(), PrimKind(), CipherKind(), HistoryKind()]
 
 
 def coverage_extra():
